@@ -155,16 +155,16 @@ func (st *State) closure(arr Term, alloc Term) string {
 	is, es := splitArr(arr.Sort)
 	switch {
 	case es == SRef:
-		return fmt.Sprintf("(forall ((r!c %s)) (! (or (= (select %s r!c) null) (select %s (select %s r!c))) :pattern ((select %s r!c))))", is, arr.S, alloc.S, arr.S, arr.S)
+		return fmt.Sprintf("(forall ((r!c %s)) (! (or (= (select %s r!c) null) (select %s (rootof (select %s r!c)))) :pattern ((select %s r!c))))", is, arr.S, alloc.S, arr.S, arr.S)
 	case es == SIface:
-		return fmt.Sprintf("(forall ((r!c %s)) (! (=> ((_ is iref) (select %s r!c)) (or (= (pref (select %s r!c)) null) (select %s (pref (select %s r!c))))) :pattern ((select %s r!c))))", is, arr.S, arr.S, alloc.S, arr.S, arr.S)
+		return fmt.Sprintf("(forall ((r!c %s)) (! (=> ((_ is iref) (select %s r!c)) (or (= (pref (select %s r!c)) null) (select %s (rootof (pref (select %s r!c)))))) :pattern ((select %s r!c))))", is, arr.S, arr.S, alloc.S, arr.S, arr.S)
 	case es.IsArr():
 		ks, vs := splitArr(es)
 		switch vs {
 		case SRef:
-			return fmt.Sprintf("(forall ((r!c %s) (k!c %s)) (! (or (= (select (select %s r!c) k!c) null) (select %s (select (select %s r!c) k!c))) :pattern ((select (select %s r!c) k!c))))", is, ks, arr.S, alloc.S, arr.S, arr.S)
+			return fmt.Sprintf("(forall ((r!c %s) (k!c %s)) (! (or (= (select (select %s r!c) k!c) null) (select %s (rootof (select (select %s r!c) k!c)))) :pattern ((select (select %s r!c) k!c))))", is, ks, arr.S, alloc.S, arr.S, arr.S)
 		case SIface:
-			return fmt.Sprintf("(forall ((r!c %s) (k!c %s)) (! (=> ((_ is iref) (select (select %s r!c) k!c)) (or (= (pref (select (select %s r!c) k!c)) null) (select %s (pref (select (select %s r!c) k!c))))) :pattern ((select (select %s r!c) k!c))))", is, ks, arr.S, arr.S, alloc.S, arr.S, arr.S)
+			return fmt.Sprintf("(forall ((r!c %s) (k!c %s)) (! (=> ((_ is iref) (select (select %s r!c) k!c)) (or (= (pref (select (select %s r!c) k!c)) null) (select %s (rootof (pref (select (select %s r!c) k!c)))))) :pattern ((select (select %s r!c) k!c))))", is, ks, arr.S, arr.S, alloc.S, arr.S, arr.S)
 		}
 	}
 	return ""
@@ -245,8 +245,8 @@ func (st *State) subRef(structT types.Type, f *types.Var, ref Term) Term {
 		k := len(e.subKinds) + 1
 		e.subKinds[name] = k
 		e.decls = append(e.decls, fmt.Sprintf(
-			"(assert (forall ((r Ref)) (! (and (= (%s (%s r)) r) (= (subkind (%s r)) %d) (not (= (%s r) null))) :pattern ((%s r)))))",
-			own, m, m, k, m, m))
+			"(assert (forall ((r Ref)) (! (and (= (%s (%s r)) r) (= (subkind (%s r)) %d) (not (= (%s r) null)) (= (rootof (%s r)) (rootof r))) :pattern ((%s r)))))",
+			own, m, m, k, m, m, m))
 	}
 	return app(SRef, m, ref)
 }
@@ -292,8 +292,10 @@ func (st *State) assumeLoaded(t types.Type, v Val) {
 	}
 }
 
+// isAlloc: allocation is recorded for top-level objects; an embedded sub-object is allocated
+// exactly when the object it is part of is.
 func (st *State) isAlloc(r Term) Term {
-	return Select(st.hget("alloc", SArr(SRef, SBool)), r)
+	return Select(st.hget("alloc", SArr(SRef, SBool)), app(SRef, "rootof", r))
 }
 
 func (st *State) storeField(structT types.Type, f *types.Var, ref Term, v Val) {
@@ -375,6 +377,7 @@ func (st *State) newObject(hint string) Term {
 	st.assume(Not(Eq(r, TNull)))
 	st.assume(Not(Select(alloc, r)))
 	st.assume(Eq(app(SInt, "subkind", r), IntLit(0)))
+	st.assume(Eq(app(SRef, "rootof", r), r))
 	st.hset("alloc", Store(alloc, r, TTrue))
 	st.fresh[r.S] = true
 	return r
